@@ -83,11 +83,18 @@ def load_merchant_rules(csv_path):
             tags_str = tags_str.strip()
             tags = [t.strip() for t in tags_str.split('|') if t.strip()] if tags_str else []
 
+            # Names are taken without surrounding blanks (`NETFLIX, Netflix, Subscriptions`),
+            # like the pattern and the tags - and like the migrated .rules file reads them
+            merchant, category, subcategory = (
+                v.strip() if isinstance(v, str) else v
+                for v in (row['Merchant'], row['Category'], row['Subcategory'])
+            )
+
             rules.append((
                 parsed.regex_pattern,  # Pure regex for matching
-                row['Merchant'],
-                row['Category'],
-                row['Subcategory'],
+                merchant,
+                category,
+                subcategory,
                 parsed,  # Full parsed pattern with conditions
                 tags  # List of tags
             ))
